@@ -849,6 +849,15 @@ def guarded_by_edges(fn, bb, edges):
     return bb in fn.reachable() and bb not in fn.reach(0, skip_edges=edges)
 
 
+def sole_target(ts, els, key):
+    """the target of switch value `key` when no other value (and not the otherwise edge) leads to the same block —
+    an or-pattern `A | B => X` sends two values over what edge dominance sees as one edge."""
+    t = ts.get(key)
+    if t is None or t == els or any(v == t for k, v in ts.items() if k != key):
+        return None
+    return t
+
+
 def edge_implies(fn, a, tgt, b):
     """block b is reached only if the edge a->tgt was taken — directly (edge dominance) or
     through a materialised boolean (`matches!`, `a && b`): a bool local assigned the constant
